@@ -333,10 +333,98 @@ def replay_mesh_large(sp):
     return dict(confirmed=bool(r["failures"]), observed=[f["observed"] for f in r["failures"]][:3], input=[f["input"] for f in r["failures"]][:3])
 
 
+def _warm(m):
+    """touch every cached table"""
+    for a in ("facets", "t2f", "f2t", "edges", "t2e"):
+        try:
+            getattr(m, a)
+        except Exception:
+            pass
+    m.boundary_facets()
+
+
+def check_history(label, m, rng):
+    """connectivity after mesh operations applied to a mesh whose tables are already cached: the ORIGINAL must stay coherent (and its cell list untouched), and
+    the RESULT must be coherent with its own cell list"""
+    import skfem as fem
+    fails = []
+    kind = type(m).__name__
+    nt = m.t.shape[1]
+    ops = [("with_boundaries", lambda q: q.with_boundaries({"b": q.boundary_facets()[:1]})),
+           ("with_subdomains", lambda q: q.with_subdomains({"s": np.array([0])})),
+           ("translated", lambda q: q.translated(tuple([.5] * q.p.shape[0]))),
+           ("remove_unused_nodes", lambda q: q.remove_unused_nodes()),
+           ("remove_duplicate_nodes", lambda q: q.remove_duplicate_nodes()),
+           ("restrict", lambda q: q.restrict(np.arange(max(1, q.t.shape[1] // 2)))),
+           ("remove_elements", lambda q: q.remove_elements(np.array([0])) if q.t.shape[1] > 1 else q),
+           ("refined", lambda q: q.refined(1))]
+    if kind.startswith(("MeshTri1", "MeshTet1")):
+        ops.append(("oriented", lambda q: q.oriented()))
+    if kind.startswith("MeshTri1"):
+        ops.append(("refined-adaptive", lambda q: q.refined(np.array([0]))))
+    variants = [("as built", m)]
+    if nt > 2 and not kind.startswith("MeshWedge"):
+        # a mesh with unused vertices in front of / between used ones
+        sub = np.sort(rng.choice(nt, max(1, nt // 2), replace=False))
+        try:
+            variants.append(("cell subset with unused vertices", type(m)(m.p, m.t[:, sub])))
+        except Exception:
+            pass
+    for vname, m0 in variants:
+        for oname, op in ops:
+            try:
+                q = type(m0)(m0.p.copy(), m0.t.copy())
+            except Exception:
+                continue
+            _warm(q)
+            t_before = q.t.copy()
+            try:
+                r = op(q)
+            except NotImplementedError:
+                continue
+            except Exception as e:
+                if oname in ("remove_duplicate_nodes",):
+                    continue
+                fails.append("%s (%s): raised %s: %s" % (oname, vname, type(e).__name__, str(e)[:100]))
+                continue
+            if not np.array_equal(q.t, t_before):
+                fails.append("%s (%s): the cell list of the mesh it was called on changed" % (oname, vname))
+            for who, mm in (("original after " + oname, q), ("result of " + oname, r)):
+                if who.startswith("result") and vname != "as built" and oname in ("with_boundaries", "with_subdomains", "translated", "refined", "restrict", "remove_elements", "oriented", "refined-adaptive"):
+                    pass
+                try:
+                    fl = check_connectivity(label, mm)
+                except Exception as e:
+                    fl = ["exception %s: %s" % (type(e).__name__, str(e)[:120])]
+                for f in fl[:1]:
+                    fails.append("%s (%s): %s" % (who, vname, f))
+    return fails
+
+
 def run(payload):
     what = payload.get("what", "connectivity")
     if what == "large":
         return run_large(payload)
+    if what == "history":
+        tier, seed = payload.get("tier", "quick"), int(payload.get("seed", 0))
+        rng = np.random.RandomState(seed + 5)
+        cases, failures, samples = 0, [], []
+        for label, m in Z.zoo(tier, seed, variants=0):
+            if payload.get("only") and label != payload["only"]:
+                continue
+            cases += 1
+            try:
+                fl = check_history(label, m, rng)
+            except Exception as e:
+                import traceback
+                fl = ["exception %s: %s | %s" % (type(e).__name__, e, traceback.format_exc()[-300:])]
+            if len(samples) < 3:
+                samples.append(label)
+            for f in fl[:4]:
+                failures.append(dict(input=dict(mesh=label), observed=f, replay=dict(kind="mesh_case", what="history", only=label, seed=seed, tier=tier)))
+        return dict(cases=cases, failures=failures[:20], samples=samples, nontrivial=cases,
+                    bound="every base mesh of the zoo (and a cell subset with unused vertices) with warm connectivity caches x {with_boundaries, with_subdomains, translated, "
+                          "remove_unused_nodes, remove_duplicate_nodes, restrict, remove_elements, refined, oriented, adaptive refinement}: original and result re-checked")
     tier, seed = payload.get("tier", "quick"), int(payload.get("seed", 0))
     only = payload.get("only")
     cases, failures, samples = 0, [], []
